@@ -298,6 +298,8 @@ func ruleEFloatOrigin(p *Program, r *Reporter) {
 			return "math/big detour"
 		case n == "fmt.Sscan", n == "fmt.Sscanf":
 			return "numeric text scanned into a machine number"
+		case n == "(*github.com/woodsbury/decimal128.Decimal).UnmarshalText", n == "(*github.com/woodsbury/decimal128.Decimal).Scan", n == "github.com/woodsbury/decimal128.MustParse":
+			return "a decimal is read with the general text syntax of decimal128, which also accepts NaN, Inf and sNaN spellings: a string that is not a JSON number becomes a number (one that is not even equal to itself)"
 		}
 		return ""
 	}
@@ -317,6 +319,15 @@ func ruleEFloatOrigin(p *Program, r *Reporter) {
 						}
 						r.Bad(instrPos(in), fmt.Sprintf("%s calls %s", name, n), why)
 						continue
+					}
+					if n == "github.com/woodsbury/decimal128.Parse" && len(x.Common().Args) == 1 {
+						// the general text syntax (NaN, Inf) is safe only on text that encoding/json has validated as a number
+						key := fmt.Sprintf("%s calls %s", name, n)
+						if fromJSONNumber(x.Common().Args[0], 0) {
+							r.OK(in.Pos(), key, "applied to the text of a json.Number")
+						} else {
+							r.Bad(instrPos(in), key, "decimal128.Parse is applied to text that is not the text of a json.Number: it accepts NaN and Inf spellings, which are not JSON numbers")
+						}
 					}
 					if strings.HasPrefix(n, "github.com/woodsbury/decimal128.FromFloat") {
 						fromFloat++
@@ -895,6 +906,11 @@ func ruleEDecimalEq(p *Program, r *Reporter) {
 				if isErrorType(x.X.Type()) || isErrorType(x.Y.Type()) {
 					continue
 				}
+				// one operand is known, on every way into this block, to be null, a boolean or a string (the cases of a type
+				// switch that lists only those): interface equality is then equality of JSON values
+				if scalarOnly(b, x.X, 0) || scalarOnly(b, x.Y, 0) {
+					continue
+				}
 				n++
 				r.Bad(instrPos(x), fmt.Sprintf("%s interface %s", p.FuncName(fn), x.Op), "two JSON values compared with "+x.Op.String()+" on interfaces: numbers are compared by representation and uncomparable dynamic types (slices, maps) panic")
 			}
@@ -1337,4 +1353,67 @@ func ruleEParseStrict(p *Program, r *Reporter) {
 			r.OK(job.fn.Pos(), key, fmt.Sprintf("%d paths on which decimal128.Parse fails: each reports 'not a number'", failed))
 		}
 	}
+}
+
+// scalarOnly: every edge into block b is the true edge of a test that v is nil, a bool or a string (directly or through
+// blocks that only jump on).
+func scalarOnly(b *ssa.BasicBlock, v ssa.Value, depth int) bool {
+	if len(b.Preds) == 0 || depth > 4 {
+		return false
+	}
+	for _, p := range b.Preds {
+		if len(p.Instrs) == 0 {
+			return false
+		}
+		switch last := p.Instrs[len(p.Instrs)-1].(type) {
+		case *ssa.Jump:
+			if !scalarOnly(p, v, depth+1) {
+				return false
+			}
+		case *ssa.If:
+			if p.Succs[0] != b || p.Succs[1] == b {
+				return false
+			}
+			ok := false
+			switch c := last.Cond.(type) {
+			case *ssa.BinOp:
+				ok = c.Op == token.EQL && ((c.X == v && isNilConst(c.Y)) || (c.Y == v && isNilConst(c.X)))
+			case *ssa.Extract:
+				if ta, isTA := c.Tuple.(*ssa.TypeAssert); isTA && c.Index == 1 && ta.CommaOk && ta.X == v {
+					if bt, isBasic := ta.AssertedType.Underlying().(*types.Basic); isBasic && (bt.Kind() == types.Bool || bt.Kind() == types.String) && ta.AssertedType == types.Type(bt) {
+						ok = true
+					}
+				}
+			}
+			if !ok {
+				return false
+			}
+		default:
+			return false
+		}
+	}
+	return true
+}
+
+// fromJSONNumber: v is a json.Number converted to string (possibly through a phi of such values or a String() call).
+func fromJSONNumber(v ssa.Value, depth int) bool {
+	if depth > 4 {
+		return false
+	}
+	switch x := v.(type) {
+	case *ssa.Convert:
+		return typeShort(x.X.Type()) == "json.Number"
+	case *ssa.ChangeType:
+		return typeShort(x.X.Type()) == "json.Number"
+	case *ssa.Call:
+		return calleeFullName(x.Common()) == "(encoding/json.Number).String"
+	case *ssa.Phi:
+		for _, e := range x.Edges {
+			if !fromJSONNumber(e, depth+1) {
+				return false
+			}
+		}
+		return len(x.Edges) > 0
+	}
+	return false
 }
